@@ -23,7 +23,8 @@ class Prop(C02):
     assumptions = ['a Source object (allocation token) always denotes the same remote address (consistent histories)']
     rule = ('histories over 3 prefixes, 3 peers (each with a restarted session), path ids 0-2, with insert/replace/remove/drop/stale mark and purge/'
             'LLGR mark and purges/NO_LLGR purge/next-hop flips/start-end deferral; non-trivial = at least one change with best_changed=false or '
-            'any_changed=false was emitted; distinct = distinct sequence of (prefix, flags, path list) changes')
+            'any_changed=false was emitted; distinct = distinct sequence of (prefix, flags, path list) changes'
+            ' Enumerated on every run (gen/ribenum.py, tags enum:*): every operation of a 90-operation alphabet on each of 21 pre-states; two-candidate duels deciding at exactly one step of the decision order with the loser better at every later step, single-step ECMP exclusions, complete ties, EVPN MAC-mobility forms in every extended-community layout, LLGR_STALE / NO_LLGR in every community position; AS_PATH hop counts on both sides of 0/1/63/64/65/127/128/255/256/510 in every segment shape including unknown segment types and hundreds of one-AS segments; 67 (thorough: 131) prefixes crossing the id bitmap words with ids freed and re-used; prefix limits 0/1/2/u32::MAX; u32 ends of path ids, LOCAL_PREF, router ids, CLUSTER_LIST lengths; all role pairs.')
 
     enum_which = 'c06'
 
